@@ -1000,5 +1000,12 @@ func (e *Exec) goStmt(st *State, x *ssa.Go, where string) {
 	if f := c.StaticCallee(); f != nil {
 		name = f.String()
 	}
-	e.Outs = append(e.Outs, OutEvent{Guard: st.G, Chan: "go:" + name + "@" + where})
+	// the concrete string arguments identify the launched task (e.g. the log id of a batch line)
+	tag := "|"
+	for _, a := range c.Args {
+		if s, ok := e.concStr(e.get(st, a)); ok {
+			tag += s + "|"
+		}
+	}
+	e.Outs = append(e.Outs, OutEvent{Guard: st.G, Chan: "go:" + name, Text: &StrV{Conc: tag}})
 }
